@@ -106,7 +106,7 @@ def observe(sess, hist, op, exc, valid, reason, pre, acc):
 _shard = kcommon.make_run(__name__, "observe")
 
 
-def _late_faults(cfg, model):
+def _late_faults_unused(cfg, model):
     """Requests that are refused only after the block / entry has been looked at (the ones a
     memory-only table update would survive)."""
     out = []
@@ -124,7 +124,7 @@ def _chain_shard(cfg_w):
 
     cfg = kdriver.Config.from_witness(cfg_w)
     acc = core.Acc()
-    kdriver.explore_chains(cfg, observe, acc, depth=3, fault_call=c07.call_fault, fault_ops=_late_faults)
+    kdriver.explore_chains(cfg, observe, acc, depth=3, fault_call=c07.call_fault, fault_ops=kcommon.late_faults)
     return acc
 
 
